@@ -89,6 +89,10 @@ func Shards() int {
 	return n
 }
 
+// SkipPinned reports whether the pinned reproducers are to be skipped (VERIF_NO_PINNED=1). Only used when measuring
+// whether the generated search alone catches a seeded change; the registered commands never set it.
+func SkipPinned() bool { return os.Getenv("VERIF_NO_PINNED") != "" }
+
 // N picks the case count for the tier. Thorough counts are per shard.
 func N(quick, thorough int) int {
 	if s := os.Getenv("VERIF_CHECKS"); s != "" {
